@@ -701,7 +701,7 @@ def gen_cases(tier, seed):
                            "fill_seed": k, "maps": ("list", "dict")[(k // 2) % 2], "charge_omitted": bool(k % 3 == 0)}
 
     # ---- seeded random part
-    n_rand = 30000 if quick else 200000
+    n_rand = 30000 if quick else 800000
     maxnd = 3 if quick else 4
     maxlen = 5 if quick else 6
     for i in range(n_rand):
